@@ -101,6 +101,19 @@ func c07MakeData(c c07RecallCase) (vecs [][]float32, fresh func() []float32, rng
 			centers = append(centers, gauss(3))
 		}
 	}
+	if c.Data == "clusters6" {
+		// six fixed, well separated clusters (anchor data: no drawn structure parameters): centre i sits at
+		// distance 8 from the origin on axis i (mod dim, sign flips after a full turn), spread 0.5
+		spread = 0.5
+		for i := 0; i < 6; i++ {
+			ctr := make([]float32, dim)
+			ctr[i%dim] = 8
+			if (i/dim)%2 == 1 {
+				ctr[i%dim] = -8
+			}
+			centers = append(centers, ctr)
+		}
+	}
 	one := func() []float32 {
 		switch c.Data {
 		case "uniform":
@@ -109,7 +122,7 @@ func c07MakeData(c c07RecallCase) (vecs [][]float32, fresh func() []float32, rng
 				v[i] = float32(rng.float()*2 - 1)
 			}
 			return v
-		case "clustered":
+		case "clustered", "clusters6":
 			ctr := centers[rng.intn(len(centers))]
 			v := gauss(spread)
 			for i := range v {
@@ -553,6 +566,13 @@ func c07Anchors() []c07Anchor {
 		// regression configuration of the fixed defect "Index.Add pruned reverse links on an unsorted candidate list"
 		// (replays/C07/reg_add-prune-unsorted.json): small M on unclustered 64-d data, one-by-one inserts
 		{c: c07RecallCase{Anchor: "single-hard", Cfg: c07Cfg{Metric: "euclidean", Prec: "float32", M: 8, EfC: 40, Dim: 64}, N: 3000, Data: "uniform", Build: "single", Chunk: 1000, Phases: []string{"grow"}, NQ: 200}},
+		// six well separated clusters of ~400 points (each far larger than efConstruction), batch-built, then two
+		// explicit refine passes (no deletes before them: with >= 10 % deleted nodes the maintenance API runs a
+		// vacuum instead) and a restart: refine re-computes every neighbour list from a layer search that starts
+		// at the global entry point, so it must keep a node's own neighbourhood. (Unlike the other anchors this one is
+		// not homogeneous: now and then the hierarchy fails to route into one of the six clusters and recall drops by
+		// ~1/6 per lost cluster, so its floors use the heavy-tail rule of the generated classes.)
+		{quick: true, c: c07RecallCase{Anchor: "clusters-refine", Cfg: c07Cfg{Metric: "euclidean", Prec: "float32", M: 8, EfC: 40, Dim: 8}, N: 2400, Data: "clusters6", Build: "batch", Chunk: 100, Phases: []string{"refine", "refine", "restart"}, NQ: 200}},
 		// compression to int8 of a cosine index
 		{c: c07RecallCase{Anchor: "compress-int8", Cfg: c07Cfg{Metric: "cosine", Prec: "float32", M: 16, EfC: 40, Dim: 32}, N: 1000, Data: "gauss", Build: "batch", Chunk: 100, Phases: []string{"compress", "del10"}, NQ: 200}},
 	}
@@ -640,7 +660,7 @@ func (r *c07rRun) labelList() []string {
 
 const c07RecallRule = "GENERATED cases (rapid): N in {200..3000} vectors derived from a drawn data seed (uniform / gaussian / clustered / every vector 2-6 times / 10% zero vectors), dim in {2,3,8,16,32,64} (+128,256 in the thorough tier), " +
 	"M in {2,4,8,16} x efConstruction in {8,40,200} x {euclidean/float32, cosine/float32, euclidean/float16, cosine/int8}, built by single VAdd, VAddBatch, VImport(+snapshot) or a mix (chunk 50/200/1000), followed by 1-5 phases out of " +
-	"delete 10/30/50 %, vacuum, refine, restart, VCompress, grow (more single + batch inserts). ANCHOR cases: five fixed configurations (default M=16/efC=200 by batch and by single inserts on 64-d data, M=8/efC=40 float16 fast import, M=8/efC=40 single inserts on 64-d data, compression to int8) " +
+	"delete 10/30/50 %, vacuum, refine, restart, VCompress, grow (more single + batch inserts). ANCHOR cases: six fixed configurations (default M=16/efC=200 by batch and by single inserts on 64-d data, M=8/efC=40 float16 fast import, M=8/efC=40 single inserts on 64-d data, six separated clusters batch-built then refined twice and restarted, compression to int8) " +
 	"where only the level seed and the data seed vary. After the build and after every phase 60 (anchors: 200) queries, half stored vectors and half fresh ones, measure recall@10 against brute force over the VGet read-back vectors " +
 	"(ties at the 10th distance count as hits) with efSearch=0 and efSearch=100, and the self-retrieval rate (query = stored vector => rank 1 is that vector or one at least as close). " +
 	"ORACLE: every checkpoint with >= 50 live vectors must reach the floors of its class, measured on the unchanged tree (/repo c682405, see the header of c07_floors_test.go): anchors (homogeneous, 320 seeds each): min(mean - 10 sd, min - 3 sd); " +
@@ -746,6 +766,9 @@ func TestVerif_C07_recall(t *testing.T) {
 		for ai, a := range c07Anchors() {
 			if !verifkit.Thorough() && !a.quick {
 				continue
+			}
+			if only := os.Getenv("VERIF_C07_ANCHOR_ONLY"); only != "" && only != a.c.Anchor {
+				continue // floor measurement of a single anchor
 			}
 			sd := uint64(verifkit.Seed())*1000003 + uint64(verifkit.Shard())*7919 + uint64(rep)*104729 + uint64(ai)
 			c := a.c
